@@ -21,7 +21,9 @@ def c12_circumstance(clause, hist, cfgname, item):
     """the known-defect trigger (a fact of the behaviour, in model terms) that can explain a failing
     clause; classification only: TLC has already decided that the clause fails."""
     div = item['expect']['div']
-    fs = L.facts(hist, cfgname, div[0]['k'] - 1 if div else None)
+    # facts up to the call that diverged (that call included when it is the add_isohybrid itself:
+    # on an always-consistent object extent assignment runs inside it)
+    fs = L.facts(hist, cfgname, (div[0]['k'] if div[0]['act'] == 'AddIsohybrid' else div[0]['k'] - 1) if div else None)
     if clause in ('ApiOutcomeAsModelled', 'Mastered'):
         msg = div[0]['got'] if div else item['expect']['master']
         act = div[0]['act'] if div else 'write'
@@ -42,21 +44,21 @@ def c12_circumstance(clause, hist, cfgname, item):
         # the backup GPT (32 sectors of entries + header) is written over the end of the ISO itself
         return 'efi_padding_smaller_than_backup_gpt'
     if clause == 'RbaIsFourTimesBootSector':
-        if 'isohybrid_on_consistent_object' in fs:
-            return 'isohybrid_on_consistent_object'
         if 'several_platform0_entries' in fs:
             return 'several_platform0_entries'
+        if 'isohybrid_on_consistent_object' in fs:
+            return 'isohybrid_on_consistent_object'
     if clause == 'ApmConsistent' and 'mac' in fs:
         return 'mac'
     if clause in ('EfiPartitionDelimitsItsSection', 'MacPartitionDelimitsItsSection'):
-        if 'isohybrid_on_consistent_object' in fs:
-            return 'isohybrid_on_consistent_object'
         if 'efi_sections_name_order_differs_from_catalog_order' in fs:
             return 'efi_sections_name_order_differs_from_catalog_order'
         if clause.startswith('Efi') and 'efi_section_size_differs_from_last_section' in fs:
             return 'efi_section_size_differs_from_last_section'
         if clause.startswith('Mac') and 'mac_section_size_differs_from_last_section' in fs:
             return 'mac_section_size_differs_from_last_section'
+        if 'isohybrid_on_consistent_object' in fs:
+            return 'isohybrid_on_consistent_object'
     if clause in ('OneActivePartition', 'PartitionEntryAtRequestedSlot', 'PartitionType', 'PartitionOffset',
                   'GeometryCoversPaddedImage') and 'part_entry_collides_with_efi_or_mac_slot' in fs:
         return 'part_entry_collides_with_efi_or_mac_slot'
@@ -70,6 +72,8 @@ def c12_circumstance(clause, hist, cfgname, item):
 
 
 def run(ctx):
+    if getattr(ctx, 'replay', None):
+        return L.replay_file(ctx, 'Judge_C12', True, c12_circumstance)
     quick = ctx.tier == 'quick'
     rnd = random.Random(ctx.seed)
     if quick:
